@@ -28,7 +28,7 @@ fn model_to_bit(w: u32) -> u64 {
     word_to_card(w).map(|c| c.bit()).unwrap_or(0)
 }
 
-/// Case kinds: "from_ckc" [word]; "from_binary_card" [64-bit value]; "named-bit" [index]; "deck-bit" [index]; "group" [index].
+/// Case kinds: "from_ckc" [word]; "from_binary_card" [64-bit value]; "named-bit" [index]; "deck-bit" [index].
 pub fn judge(case: &Case) -> Verdict {
     let x = case.words.first().copied().unwrap_or(0);
     match case.kind.as_str() {
@@ -84,19 +84,6 @@ pub fn judge(case: &Case) -> Verdict {
                 Verdict::Holds
             } else {
                 Verdict::Violated { class: "deck-bit:wrong-bit".into(), expected: format!("DECK[{}] = bit {}", x, 51 - x), observed: format!("{:#x}", b) }
-            }
-        }
-        "group" => {
-            let t = rank_groups();
-            if x as usize >= t.len() {
-                return Verdict::NotJudged("no such group".into());
-            }
-            let (name, b, r) = t[x as usize];
-            let exp = (0..4).fold(0u64, |m, s| m | Card::new(r, s).bit());
-            if b == exp {
-                Verdict::Holds
-            } else {
-                Verdict::Violated { class: "group:wrong-mask".into(), expected: format!("BinaryCard::{} = {:#x}", name, exp), observed: format!("{:#x}", b) }
             }
         }
         _ => Verdict::NotJudged("unknown kind".into()),
@@ -186,17 +173,7 @@ pub fn run(ctx: &Ctx, rep: &mut Report) {
                 }
             }
         }
-        for i in 0..13u64 {
-            acc.cases += 1;
-            acc.calls += 1;
-            if let Some(v) = confirm(judge, Case::new("group", &[i])) {
-                acc.violate(v);
-            }
-        }
-        let all = <BinaryCard as BC64>::ALL;
-        let ovf = <BinaryCard as BC64>::OVERFLOW;
-        rep.guard("ALL is the 52 card bits and OVERFLOW the 12 bits above", all == (1u64 << 52) - 1 && ovf == !((1u64 << 52) - 1), format!("{:#x} {:#x}", all, ovf));
-        rep.add_space("52 named bit constants, DECK, rank groups, round trips both ways", &acc, t0, "");
+        rep.add_space("52 named bit constants, DECK, round trips both ways", &acc, t0, "");
         rep.sample(sample_json("from_ckc / from_binary_card", "A♠ / bit 51", &format!("{:#x} / {}", BinaryCard::from_ckc(deck()[0].word()), show_word(CKCNumber::from_binary_card(1 << 51)))));
     }
     // bit -> word: structured families
@@ -219,7 +196,8 @@ pub fn run(ctx: &Ctx, rep: &mut Report) {
         for (_, g, _) in rank_groups() {
             check_b(&mut acc, g);
         }
-        for b in [<BinaryCard as BC64>::ALL, <BinaryCard as BC64>::OVERFLOW, u64::MAX, (1u64 << 52), (1u64 << 52) | 1] {
+        // the crate's ALL / OVERFLOW / rank-group masks are used as INPUTS only (the statement says nothing about them)
+        for b in [<BinaryCard as BC64>::ALL, <BinaryCard as BC64>::OVERFLOW, (1u64 << 52) - 1, !((1u64 << 52) - 1), u64::MAX, (1u64 << 52), (1u64 << 52) | 1] {
             check_b(&mut acc, b);
         }
         rep.add_space("from_binary_card: 0, all values of population count <= 3 and >= 61, group masks, ALL, OVERFLOW", &acc, t0, "");
